@@ -209,6 +209,29 @@ CHECKS = {
         'callbacks serialised on the reactor thread as in production; '
         'liveness in bounded form only.',
     ),
+    'C14': (
+        'standalone', 'exploration',
+        'differential: Hypothesis-generated message sequences x chunkings x '
+        'connection interleavings on the real Hand / comms.Worker / LogSink '
+        'vs whole-message delivery; every single split and every pair of '
+        'splits near frame boundaries of generated streams; generated '
+        'handshake transcripts (signature, magic, length, echo knobs, glued '
+        'application bytes) through the real TwistedWrapper',
+        'Recorders replace the application sinks (Hand._process, Worker.do, '
+        'the log handler); the recorded sequence must equal the sequence '
+        'sent for every chunking, for 1-byte chunks, and for 2-3 connections '
+        'whose chunks interleave mid-frame (part chunks); part splits is '
+        'exhaustive over single split positions and over pairs within 6 '
+        'bytes of a boundary for each generated stream; part handshake runs '
+        'the legacy handshake with a stand-in PGP object: nothing recorded '
+        'before the final packet verified, glued bytes delivered in order '
+        'after a valid handshake, any invalid element (bad signature, wrong '
+        'magic, wrong length, wrong or replayed echo) closes with nothing '
+        'recorded; part receive checks message.send/receive over a socket '
+        'that returns 1..64 bytes per recv.',
+        'GnuPG and TLS themselves are below the seam; transport contract '
+        '"nothing delivered after loseConnection" honoured by the harness.',
+    ),
 }
 
 NOT_YET = 'check not built yet in this session (planned, see DESIGN.md section 4)'
